@@ -96,6 +96,7 @@ type Exec struct {
 	loopHavoc bool
 	constGlobals map[string]Val
 	tagFacts    []*Term
+	globFacts   []globFact // facts about constant globals of dependencies, added to the queries that mention them
 	sealedImpls map[string][]int
 	pureSeen  map[string]bool
 	nilable   map[*Term]string // sweep: terms that may be nil by local provenance (see nilcheck.go)
@@ -816,4 +817,9 @@ func (ex *Exec) putEdge(fr *Frame, from, to *ssa.BasicBlock, st *State) {
 
 func (ex *Exec) srcText(pos token.Pos, dflt string) string {
 	return dflt
+}
+
+type globFact struct {
+	name string
+	fact *Term
 }
